@@ -18,6 +18,9 @@ def queries(tier, seed):
     for (s, sb, si) in ms:
         for (d, db, di) in ms:
             t = 'quick' if (s in QUICK_MODELS and d in QUICK_MODELS) else 'thorough'
+            # packed channels that fill their storage type completely (8 and 16 bits): against the 8/16-bit built-in channels and one packed width
+            full = (packed(8), packed(16)); partners = ('std::uint8_t', 'std::uint16_t', packed(5), packed(8), packed(16))
+            if (s in full and d in partners) or (d in full and s in partners): t = 'quick'
             same = 1 if s == d else 0
             rt = 1 if ((si and di and db >= sb) or (si and not di and sb <= 16)) else 0
             # signed<->unsigned of the same width have the same number of levels
